@@ -155,6 +155,7 @@ class Assembly:
         self.list_offsets = list(list_offsets)
         self.info_lead = info_lead
         self.sections = {}
+        self.overflow = False
 
     # -- abbreviation tables
     def _abbrevs(self):
@@ -262,6 +263,8 @@ class Assembly:
                 w = dp.addr if dp.version == 2 else dp.osz
             else:
                 w = int(n[3:])
+            if final and not 0 <= rel < (1 << (8 * w)):
+                self.overflow = True        # the target does not fit the form: the image is malformed (callers treat the case as outside the envelope)
             return dp.u(w, rel), form, rel & ((1 << (8 * w)) - 1), rel & ((1 << (8 * w)) - 1), 0
         if n in ('addrx', 'addrx1', 'addrx2', 'addrx3', 'addrx4'):
             i = v[1]
